@@ -25,6 +25,8 @@ def index_terms(fs, limit=14):
         if z3.is_quantifier(x):
             continue
         if z3.is_app(x):
+            if any(z3.is_var(ch) for ch in x.children()):
+                pass
             if x.decl().kind() in (z3.Z3_OP_SELECT, z3.Z3_OP_STORE) and x.num_args() >= 2:
                 t = x.arg(1)
                 if z3.is_int(t) and t.get_id() not in seen and not z3.is_int_value(t):
@@ -108,6 +110,57 @@ def finite_support(a, terms, depth=0):
     return cons
 
 
+_sk = [0]
+
+
+def ground_formula(f, pos, terms, cap=120, depth=0):
+    """quantifier-free weakening/strengthening of f over the instantiation terms: universal quantifiers in positive
+    position become finite conjunctions, existential ones are skolemised (and dually in negative position).
+    Used only to find candidate models (validated afterwards), so approximation is harmless."""
+    from .core import has_quant
+    import itertools
+    if not has_quant(f):
+        return f
+    if z3.is_quantifier(f) and not f.is_lambda():
+        n = f.num_vars()
+        universal = f.is_forall()
+        if universal == pos:
+            # conjunction (pos forall) / disjunction (neg exists) over instances
+            if any(f.var_sort(i) != z3.IntSort() for i in range(n)) or n > 3 or depth > 2:
+                return z3.BoolVal(True) if pos else z3.BoolVal(False)
+            parts = []
+            for tup in itertools.islice(itertools.product(terms, repeat=n), cap):
+                parts.append(ground_formula(z3.substitute_vars(f.body(), *reversed(tup)), pos, terms, cap, depth + 1))
+            return z3.And(parts) if universal else z3.Or(parts)
+        # skolemise
+        cs = []
+        for i in range(n):
+            _sk[0] += 1
+            cs.append(z3.Const(f"gsk!{_sk[0]}", f.var_sort(i)))
+        return ground_formula(z3.substitute_vars(f.body(), *reversed(cs)), pos, terms, cap, depth + 1)
+    if z3.is_app(f):
+        k = f.decl().kind()
+        ch = f.children()
+        if k == z3.Z3_OP_AND:
+            return z3.And([ground_formula(c, pos, terms, cap, depth) for c in ch])
+        if k == z3.Z3_OP_OR:
+            return z3.Or([ground_formula(c, pos, terms, cap, depth) for c in ch])
+        if k == z3.Z3_OP_NOT:
+            return z3.Not(ground_formula(ch[0], not pos, terms, cap, depth))
+        if k == z3.Z3_OP_IMPLIES:
+            return z3.Or(z3.Not(ground_formula(ch[0], not pos, terms, cap, depth)), ground_formula(ch[1], pos, terms, cap, depth))
+        if k == z3.Z3_OP_ITE and z3.is_bool(f):
+            c0 = ch[0]
+            if not has_quant(c0):
+                return z3.If(c0, ground_formula(ch[1], pos, terms, cap, depth), ground_formula(ch[2], pos, terms, cap, depth))
+        if k in (z3.Z3_OP_EQ, z3.Z3_OP_IFF) and z3.is_bool(ch[0]):
+            a, b = ch
+            return z3.And(z3.Or(z3.Not(ground_formula(a, not pos, terms, cap, depth)), ground_formula(b, pos, terms, cap, depth)),
+                          z3.Or(z3.Not(ground_formula(b, not pos, terms, cap, depth)), ground_formula(a, pos, terms, cap, depth)))
+    # a quantifier buried in a term we do not take apart: drop (pos) / refuse (neg)
+    return z3.BoolVal(True) if pos else z3.BoolVal(False)
+
+
 def ground_solver(assertions, timeout_ms):
     """the finite-scope weakening of a VC given as a list of assertions (hypotheses and the negated goal)"""
     from .core import has_quant
@@ -125,19 +178,12 @@ def ground_solver(assertions, timeout_ms):
             continue
         for cst in finite_support(a, scope) or []:
             s.add(cst)
-    snf = z3.Tactic('snf')
     for h in assertions:
         if has_quant(h):
-            for inst in instantiate(h, terms, keep_quant=True):
-                if has_quant(inst):
-                    try:
-                        for sub in snf(inst)[0]:
-                            if not has_quant(sub):
-                                s.add(sub)
-                    except Exception:
-                        pass
-                else:
-                    s.add(inst)
+            try:
+                s.add(ground_formula(h, True, terms))
+            except Exception:
+                pass
         else:
             s.add(h)
     return s
